@@ -90,6 +90,26 @@ Theorem C16_status_rejects_refuted : exists b,
 Proof. exact status_rejects_refuted. Qed.
 Print Assumptions C16_status_rejects_refuted.
 
+(** what the specification asks of a decoded status text (the verdict the oracle applies to
+    the implementation's observation): a text outside the grammar is refused; a status-line
+    with a code 100..999 is read with the value it denotes; one with a code 000..099 (in the
+    grammar, outside the round-trip domain) is read with that value or refused; never a panic,
+    never another value *)
+Theorem C16_status_spec_meaning : forall b o,
+  status_dec_spec_ok b o = true <->
+  match status_den b with
+  | None => o = ObsErr
+  | Some v => o = ObsOk v \/ (o = ObsErr /\ fst v < 100)
+  end.
+Proof. exact status_dec_spec_ok_meaning. Qed.
+Print Assumptions C16_status_spec_meaning.
+
+(** the model of the present decoder meets it on every non-empty text *)
+Theorem C16_status_model_meets_spec : forall b, b <> EmptyString ->
+  status_dec_spec_ok b (obs_of (status_unmarshal status_zero b)) = true.
+Proof. exact status_dec_spec_ok_of_model. Qed.
+Print Assumptions C16_status_model_meets_spec.
+
 (** ** Instants: the calendar arithmetic *)
 
 (** day number -> (year, month, day) -> day number is the identity on ALL days, and
